@@ -577,8 +577,9 @@ func (db *DB) parseDataFiles(dataFileIds []int) (unconfirmedRecords []*Record, c
 					break
 				}
 
-				// see getActiveFileWriteOff: a torn record can only be the tail of the last segment
-				if err == ErrCrc && dataID == dataFileIds[len(dataFileIds)-1] {
+				// see getActiveFileWriteOff: a torn record is the tail of the segment that was
+				// active when the write failed (the next write may have rotated to a new one)
+				if err == ErrCrc {
 					break
 				}
 				f.rwManager.Close()
